@@ -144,6 +144,10 @@ def _exit_rule(ctx, facts, fid):
     for loop in [n for n in t.nodes if n["k"] == "Loop"]:
         for (kind, node) in loop_exits(fn, loop):
             if kind == "iterator-exhausted":
+                # loops over the input or over the deferral buffer end with their iterator; a race loop must not
+                if fid.endswith("hash_item"):
+                    n_inst += 1
+                    ctx.violation("EXIT", fid, "race bounded by an iterator", hirq.loc(loop), "the race of an item ends when an iterator is exhausted (a fixed number of points), not when its next point cannot beat the largest register")
                 continue
             where = hirq.loc(node)
             if kind in ("return", "try"):
@@ -199,8 +203,12 @@ def _exit_rule(ctx, facts, fid):
         for it in nf.all_conditions(t, n, stop=stop):
             n_inst += 1
             c = _cond_class(fn, it)
-            if c in ("MAX(continue)", "GUARD", "BUFFER"):
+            is_draw = n["k"] == "MethodCall" and n["name"] == "sample"
+            if c in ("MAX(continue)", "BUFFER") or (c == "GUARD" and False):
                 ctx.ok("EXIT", fid, "%s is conditional on %s [%s]" % (hirq.show(n)[:40], it, c), hirq.loc(n))
+            elif c == "GUARD":
+                ctx.violation("EXIT", fid, "deferral depends on the register guard", hirq.loc(n),
+                              "%s is only executed when this point improved its register (%s): an item whose current point loses its slot would never be offered its later points" % (hirq.show(n)[:50], it))
             elif c in ("MAX(exit)", "GUARD(neg)") or it[0] == "truth" and it[2] is False and it[1] == "self.to_be_processed.is_empty()":
                 if c is None:
                     ctx.ok("EXIT", fid, "%s runs while the deferral buffer is not empty" % hirq.show(n)[:40], hirq.loc(n))
